@@ -10,6 +10,7 @@ import (
 
 	"github.com/polynetwork/poly/common"
 	"github.com/polynetwork/poly/common/config"
+	"github.com/polynetwork/poly/native/event"
 	cstates "github.com/polynetwork/poly/core/states"
 	scom "github.com/polynetwork/poly/native/service/cross_chain_manager/common"
 	hscommon "github.com/polynetwork/poly/native/service/header_sync/common"
@@ -373,7 +374,24 @@ func (f *ccmFam) doImport(r *hx.Run, op []string) string {
 		doneBefore = scom.CheckDoneTx(w.view(), o.p.CrossChainID, o.src) != nil
 	}
 	before := w.writeSet()
-	xh, notify, err := w.exec(tx, w.signerAddrs(o.signers))
+	var xh []common.Uint256
+	var notify *event.ExecuteNotify
+	var err error
+	func() {
+		// an import ends in success or in an error; a panic inside block execution is not recovered anywhere in the node
+		defer func() {
+			if e := recover(); e != nil {
+				rt, reg := f.reg[o.src]
+				name := "unregistered"
+				if reg {
+					name = fmt.Sprint(rt)
+				}
+				r.Viol("C21:import-panicked:router="+name, fmt.Sprintf("ImportOuterTransfer from chain %d (router %s) panicked instead of being rejected: %v", o.src, name, e))
+				panic(e)
+			}
+		}()
+		xh, notify, err = w.exec(tx, w.signerAddrs(o.signers))
+	}()
 	evExecuted := false
 	for _, n := range notify.Notify {
 		if st, ok := n.States.([]interface{}); ok && len(st) > 0 && st[0] == scom.NOTIFY_MAKE_PROOF {
